@@ -225,6 +225,7 @@ pub fn exec_node_case(case: &Case, prefix: &str) -> Outcome {
     let mut readb: std::collections::BTreeMap<usize, Vec<u8>> = std::collections::BTreeMap::new();
     // bytes fed and not yet making up a whole frame (a feed may end anywhere inside a frame)
     let mut feedbuf: Vec<u8> = vec![];
+    let mut tainted: std::collections::BTreeSet<usize> = Default::default();
     rt.block_on(async {
         let mut node: Option<Node> = None;
         for line in &case.lines {
@@ -233,7 +234,7 @@ pub fn exec_node_case(case: &Case, prefix: &str) -> Outcome {
             let toks = &toks[1..];
             if toks.first() == Some(&"reset") {
                 if let Some(mut n) = node.take() { n.shutdown(); }
-                feedbuf.clear();
+                feedbuf.clear(); tainted.clear();
                 match parse_reset(&toks[1..]) {
                     Some((role, scheme, seed, cb, ss)) => {
                         install_draws(seed);
@@ -261,9 +262,19 @@ pub fn exec_node_case(case: &Case, prefix: &str) -> Outcome {
                                 for (c, sid, d) in frames {
                                     if c == 1 && !n.is_client { *registered.entry(sid).or_insert(0) += 1; }
                                     if c == 2 && registered.contains_key(&sid) && !finished.contains(&sid) { fed.entry(sid).or_default().extend_from_slice(&d); }
-                                    if c == 3 { finished.insert(sid); }
+                                    // (a FIN for an id that is not registered ends nothing: the id may be opened later)
+                                    if c == 3 && registered.contains_key(&sid) { finished.insert(sid); }
                                 }
                             }
+                            ["readx", h, _] => {
+                                // an exact read consumes bytes too; one that does not complete may have consumed some:
+                                // the byte accounting of that stream ends there
+                                if let Some(h) = h.parse::<usize>().ok().filter(|h| n.handles.get(*h).is_some()) {
+                                    if let Some(hx) = o.strip_prefix("ok ") { readb.entry(h).or_default().extend_from_slice(&unhex(hx.split(' ').next().unwrap()).unwrap_or_default()); }
+                                    else { tainted.insert(h); }
+                                }
+                            }
+                            ["read", h, _] if h.parse::<usize>().map(|h| tainted.contains(&h)).unwrap_or(false) => {}
                             ["read", h, _] => {
                                 if let Some(hd) = h.parse::<usize>().ok().and_then(|h| n.handles.get(h).map(|x| (h, x.stream.id()))) {
                                     let (h, sid) = hd;
